@@ -143,6 +143,7 @@ class Decoder:
             return None
         I = absx.Interp(self.f, self.B, summaries=[summary], unroll=8, inline=self.inl, combinators=True, places=True, local_try=True)
         I.exact_seqs = True
+        I.cast_ranges = True          # (a test of the delivered RequestId - `msgid >= 0` in a wrapper - is decided from the range test the ID was narrowed under)
         outs = []
         for o in I.run():
             if o.kind not in ('val', 'ret', 'div', 'loop'):
@@ -179,21 +180,29 @@ def list_is_empty(pc, lst):
     return fl is not None and fl[1] == 0
 
 def bounded_above(pc, x, limit):
-    """the path condition holds a comparison of x with a literal that implies x <= limit"""
-    for a, t in pc:
-        if a[0] != 'bin' or len(a) != 4 or a[2] != x or a[3][0] != 'lit' or not isinstance(a[3][1], int):
-            continue
-        n = a[3][1]
-        if (a[1] == 'Le' and t and n <= limit) or (a[1] == 'Lt' and t and n <= limit + 1) or (a[1] == 'Gt' and not t and n <= limit) or (a[1] == 'Ge' and not t and n <= limit + 1):
-            return True
-    return False
+    """the path condition holds comparisons of x with literals that imply x <= limit (x <= n, x < n + 1, not x > n, x == n, n >= x ..)"""
+    hi = absx.St(pc=pc).tested_bounds(x)[1]
+    return hi is not None and hi <= limit
 
 def generic_id_ok(o):
     """The ID delivered for a messageID element whose content octets are *any*: the unsigned reader applied to exactly those octets -
     all of them, nothing cut off, nothing put in front -, narrowed to the 32-bit RequestId only under a range test (on this very
-    path) that keeps it within 0 .. maxInt, or by a checked conversion that succeeded.  (That the reader reads an unsigned number
+    path) that keeps it within 0 .. maxInt, or by a checked conversion that succeeded; or a number written out in the decoder on a
+    path whose condition says that the reader's value *is* that number (what must hold is that the delivered ID equals the number
+    the element denotes, not how it is spelled).  (That the reader reads an unsigned number
     exactly is C07's check_parse_uint; that the octets are non-negative and at most eight is what the literal ID trees decide.)"""
     t = o.id
+    want = ('field', ('variant', ('call', PARSE_UINT, (G_ID_OCTETS,), None), 'Ok', 0), '1')
+    if t[0] == 'cast' and t[1][0] == 'lit':
+        t = t[1]          # (a literal of another integer type: `0u8 as i32`; ev_Cast has evaluated a cast that changes the value)
+    if t[0] == 'lit' and isinstance(t[1], int) and not isinstance(t[1], bool):
+        # a number written out in the decoder: it is the ID the element denotes exactly on a path whose condition says that the
+        # reader's value of the content octets equals that very number (`Ok((_, 0)) => .. Some((0, ..))`); what has to hold is
+        # that the delivered ID equals the number, not that it is spelled as the reader's result
+        if 0 <= t[1] <= MAXINT and absx.St(pc=o.pc).tested_bounds(want) == (t[1], t[1]):
+            return True, ''
+        return False, ('the message ID delivered is the number %d written out in the decoder, on a path whose condition does not say that the content octets '
+                       'of the messageID element denote %d' % (t[1], t[1]))
     if t[0] == 'cast':
         if not bounded_above(o.pc, t[1], MAXINT):
             return False, ('the decoded message ID is narrowed to the 32-bit RequestId by a truncating cast without a range test: a response sent under an ID '
@@ -201,10 +210,14 @@ def generic_id_ok(o):
         t = t[1]
     elif t[0] == 'variant' and t[2] == 'Ok' and t[1][0] == 'call' and t[1][1].endswith('::try_from') and len(t[1][2]) == 1:
         t = t[1][2][0]
-    want = ('field', ('variant', ('call', PARSE_UINT, (G_ID_OCTETS,), None), 'Ok', 0), '1')
     if t != want:
         return False, 'the message ID is not the unsigned reader\'s value of the whole content of the messageID element: %s' % absx.fmt(o.id)[:120]
     return True, ''
+
+def consumed(o):
+    """the calls on this outcome's path that remove octets from a buffer (names; the buffer-mutating methods C06 G1 lists)"""
+    from props.C06 import MUTATORS
+    return [e[1].rsplit('::', 1)[-1] for e in o.ev if e[0] == 'call' and e[1].rsplit('::', 1)[-1] in MUTATORS and e[1].startswith(('bytes::', '<bytes::'))]
 
 def judge(case, outs):
     """(ok, what is wrong) for the outcomes of one tree"""
@@ -219,13 +232,24 @@ def judge(case, outs):
             return 'the message ID element'
         return absx.fmt(t)[:50]
     for o in outs:
-        cond = (' when ' + ', '.join(('' if t else 'not ') + absx.fmt(a)[:50] for a, t in o.pc if absx.leaves(a, lambda x: x[0] == 'param'))[:160]) if any(absx.leaves(a, lambda x: x[0] == 'param') for a, t in o.pc) else ''
+        tests = [(a, t) for a, t in o.pc if a[0] != 'range' and absx.leaves(a, lambda x: x[0] == 'param')]          # (what the decoder tested of the generic leaves)
+        # (the last tests are the ones that tell this outcome from its neighbours: the earlier ones are shared with them)
+        cond = (' when ' + ('.. ' if len(tests) > 3 else '') + ', '.join(('' if t else 'not ') + absx.fmt(a)[:70] for a, t in tests[-3:])[:220]) if tests else ''
         if o.kind == 'error':
             if case.kind == 'good' and not (case.want_id is None):
                 wrong.append('answered with a decoding error%s' % cond)
             continue
+        if o.kind == 'need-more':
+            # Ok(None) for a frame the parser has handed over whole: to tokio_util's Framed it means "no complete frame is buffered,
+            # read the socket first" - the message is dropped without a word and complete frames already buffered behind it are not
+            # looked at until the peer sends another byte (or closes)
+            took = consumed(o)
+            wrong.append('answered "need more" (Ok(None)) although the frame is complete%s%s: the transport takes that for "nothing to decode yet" and reads the socket before it '
+                         'decodes again - the message is neither delivered nor rejected, and complete frames buffered behind it wait for the peer\'s next byte' % (
+                             ' - and after it was taken out of the buffer (%s)' % ', '.join(took) if took else '', cond))
+            continue
         if o.kind != 'delivered':
-            wrong.append({'need-more': 'answered with "need more" although the frame is complete', 'panic': 'a panic'}.get(o.kind, 'not decided (%s)' % o.note) + cond)
+            wrong.append({'panic': 'a panic'}.get(o.kind, 'not decided (%s)' % o.note) + cond)
             continue
         if case.kind == 'bad':
             wrong.append('delivered - as message ID %s%s' % (absx.fmt(o.id)[:20], cond))
